@@ -12,6 +12,8 @@ import (
 	"sort"
 	"strings"
 	"sync"
+	"sync/atomic"
+	"time"
 
 	"filippo.io/age"
 	"go4.org/jsonconfig"
@@ -368,12 +370,32 @@ func (b *Built) leaf(e *Env, label string, inner blobserver.Storage) blobserver.
 }
 
 func (b *Built) create(typ string, ld *Loader, conf jsonconfig.Obj) (blobserver.Storage, error) {
-	s, err := blobserver.CreateStorage(typ, ld, cloneConf(conf))
+	// A re-open in this harness happens in the process of the previous incarnation.  Perkeep's sqlite
+	// files are in WAL mode: the LAST connection of the closed incarnation cleans the WAL up under an
+	// exclusive lock, and database/sql closes a connection that is still in use (e.g. by the enumerate
+	// goroutine that MergedEnumerate leaves behind when the limit is reached) only when it is
+	// returned — after Close() returned.  Opening the file meanwhile fails with SQLITE_BUSY, which a
+	// restarted process cannot see.  Such an open is repeated (bounded); a lock that persists is
+	// still returned as the error it is.
+	var s blobserver.Storage
+	var err error
+	for attempt := 0; ; attempt++ {
+		s, err = blobserver.CreateStorage(typ, ld, cloneConf(conf))
+		if err == nil || attempt >= 400 || !strings.Contains(err.Error(), "SQLITE_BUSY") {
+			break
+		}
+		BusyOpenRetries.Add(1)
+		time.Sleep(25 * time.Millisecond)
+	}
 	if err != nil {
 		return nil, fmt.Errorf("CreateStorage(%s): %w", typ, err)
 	}
 	return s, nil
 }
+
+// BusyOpenRetries counts opens repeated because the previous in-process incarnation's last sqlite
+// connection was still closing (see create).
+var BusyOpenRetries atomic.Int64
 
 func (b *Built) build(e *Env, sp *Spec) (blobserver.Storage, Caps, reopenFn, preloadFn, error) {
 	full := Caps{Receive: true, Remove: true}
